@@ -1,4 +1,22 @@
-"""Launches the real gasol_asm.main_gasol() with (a) its temporary directory moved into the current
+"""Launches the real _fp = os.environ.get("GASOL_VERIF_FAILPOINT")
+if _fp:
+    # failpoint: the front-end raises for one block (C10 fault injection).  mode "original-only" fails the
+    # analysis of the block as read from the input; "all-analyses" also fails the re-analysis done for verification.
+    import sfs_generator.ir_block as _irb
+    _orig_compiler = _irb.evm2rbr_compiler
+    _mode = os.environ.get("GASOL_VERIF_FAILPOINT_MODE", "all-analyses")
+    _hits = [0]
+
+    def failing(*a, **k):
+        name = k.get("block_name", "")
+        if name == _fp or (_mode == "all-analyses" and name == "alreadyOptimized_" + _fp):
+            _hits[0] += 1
+            if _mode == "all-analyses" or _hits[0] == 1:
+                raise Exception("Error in RBR generation", 4)
+        return _orig_compiler(*a, **k)
+    _irb.evm2rbr_compiler = failing
+
+gasol_asm.main_gasol() with (a) its temporary directory moved into the current
 working directory (so parallel runs and clean-up cannot interfere) and (b), when
 GASOL_VERIF_SOLVER is set, the solver executables rebound to the stand-in solver.
 Nothing else is changed: arguments, working directory and outputs are the CLI's own."""
@@ -32,5 +50,23 @@ if _solver:
     import smt_encoding.solver.oms_executable as _omse
     _z3e.z3_exec = _solver
     _omse.oms_exec = _solver
+
+_fp = os.environ.get("GASOL_VERIF_FAILPOINT")
+if _fp:
+    # failpoint: the front-end raises for one block (C10 fault injection).  mode "original-only" fails the
+    # analysis of the block as read from the input; "all-analyses" also fails the re-analysis done for verification.
+    import sfs_generator.ir_block as _irb
+    _orig_compiler = _irb.evm2rbr_compiler
+    _mode = os.environ.get("GASOL_VERIF_FAILPOINT_MODE", "all-analyses")
+    _hits = [0]
+
+    def failing(*a, **k):
+        name = k.get("block_name", "")
+        if name == _fp or (_mode == "all-analyses" and name == "alreadyOptimized_" + _fp):
+            _hits[0] += 1
+            if _mode == "all-analyses" or _hits[0] == 1:
+                raise Exception("Error in RBR generation", 4)
+        return _orig_compiler(*a, **k)
+    _irb.evm2rbr_compiler = failing
 
 gasol_asm.main_gasol()
